@@ -2,16 +2,21 @@
 (* Trace validation for the backend stop under release/acquire (C07): executions of the REAL backend thread, the REAL    *)
 (* Backend::stop() and REAL log calls recorded by harness/h_stop (shim atomic, script-chosen load values). Contract: when *)
 (* stop() has returned (the backend thread has terminated), every statement whose log call completed before the stop     *)
-(* was requested has been written to the sink; nothing is written twice. A line {"e":"init"} starts a new execution.     *)
+(* was requested has been written to the sink; nothing is written twice; when flush_log() returns the caller's earlier    *)
+(* statements are written and the writes happen-before the return (C06). A line {"e":"init"} starts a new execution.      *)
 EXTENDS Integers, Sequences, TLC, Json, IOUtils
 TraceLog == ndJsonDeserialize(IOEnv.TRACE)
 VARIABLES l, m
 vars == <<l, m>>
-M0 == [committed |-> 0, atstop |-> -1, ycommitted |-> 0, yjoined |-> -1, yowed |-> 0, ok |-> TRUE, why |-> ""]
+M0 == [committed |-> 0, atflush |-> 0, atstop |-> -1, ycommitted |-> 0, yjoined |-> -1, yowed |-> 0, ok |-> TRUE, why |-> ""]
 Fail(x, why) == IF x.ok THEN [x EXCEPT !.ok = FALSE, !.why = why] ELSE x
 Check(x, cond, why) == IF cond THEN x ELSE Fail(x, why)
 MStep(x, e) ==
   CASE e.e = "committed" -> Check([x EXCEPT !.committed = e.n], x.atstop < 0, "harness: statement logged after the stop request")
+    [] e.e = "flushcall" -> [x EXCEPT !.atflush = x.committed]
+    [] e.e = "flushed" -> Check(Check(x, e.delivered >= x.atflush,
+                                      "flush_log() returned while statements the caller logged before it were unwritten"),
+                                e.visible, "flush_log() returned but the sink writes are not ordered before the caller (data race on the destination)")
     [] e.e = "ycommitted" -> [x EXCEPT !.ycommitted = e.n]
     [] e.e = "joined" -> [x EXCEPT !.yjoined = x.ycommitted]       \* the second thread has ended and X has joined it
     [] e.e = "stopreq" -> [x EXCEPT !.atstop = x.committed, !.yowed = IF x.yjoined >= 0 THEN x.yjoined ELSE 0]
